@@ -78,15 +78,17 @@ def build(name, sources, flags, repo_sources=(), compiler="g++", extra_dep=(), l
         return exe
     outdir.mkdir(parents=True, exist_ok=True)
     cmd = [compiler, "-std=c++20"] + list(flags) + ["-I", str(REPO / "include"), "-I", str(HARNESS)]
-    cmd += [str(s) for s in srcs + rsrcs] + ["-o", str(exe) + ".tmp"] + list(libs)
+    tmp_exe = "%s.%d.tmp" % (exe, os.getpid())
+    cmd += [str(s) for s in srcs + rsrcs] + ["-o", tmp_exe] + list(libs)
     t0 = time.time()
     r = subprocess.run(cmd, capture_output=True, text=True)
     if r.returncode != 0:
-        shutil.rmtree(outdir, ignore_errors=True)
+        if os.path.exists(tmp_exe):
+            os.remove(tmp_exe)
         if may_fail:
             return None
         raise InfraError("build of %s failed:\n%s\n%s" % (name, " ".join(cmd), r.stderr[-4000:]))
-    os.replace(str(exe) + ".tmp", exe)
+    os.replace(tmp_exe, exe)
     log("[build] %s (%.1fs)" % (name, time.time() - t0))
     return exe
 
@@ -165,7 +167,9 @@ def model_check(spec_dir, module, cfg, name, workers=None, heap=None, timeout=36
         tail = "\n".join(r["out"].splitlines()[-60:])
         raise InfraError("model check %s (%s / %s) failed, rc=%s:\n%s" % (name, module, cfg, r["rc"], tail))
     cache.parent.mkdir(parents=True, exist_ok=True)
-    cache.write_text(json.dumps(st))
+    ct = Path("%s.%d.tmp" % (cache, os.getpid()))
+    ct.write_text(json.dumps(st))
+    os.replace(ct, cache)
     return st
 
 
@@ -181,7 +185,7 @@ def dump_graph(spec_dir, module, cfg, name, workers=1, heap=None, timeout=3600):
         st = json.loads(meta.read_text())
         st["cached"] = True
         return dot, st
-    tmp = d / (key + ".tmp")
+    tmp = d / ("%s.%d.tmp" % (key, os.getpid()))     # several checks may run at once: never share a temp name
     r = tlc(spec_dir, module, cfg, workers=workers, dump=tmp, heap=heap, timeout=timeout)
     ok = r["rc"] == 0 and "No error has been found" in r["out"]
     if not ok:
@@ -191,7 +195,9 @@ def dump_graph(spec_dir, module, cfg, name, workers=1, heap=None, timeout=3600):
     os.replace(produced, dot)
     st = {"name": name, "states_generated": r["generated"], "distinct_states": r["distinct"], "depth": r["depth"],
           "wall_s": r["wall_s"], "cached": False}
-    meta.write_text(json.dumps(st))
+    mt = Path("%s.%d.tmp" % (meta, os.getpid()))
+    mt.write_text(json.dumps(st))
+    os.replace(mt, meta)
     return dot, st
 
 
@@ -201,11 +207,16 @@ def load_graph(dot):
     from . import tlaval
     pk = Path(str(dot) + ".pickle")
     if pk.exists():
-        with open(pk, "rb") as f:
-            return pickle.load(f)
+        try:
+            with open(pk, "rb") as f:
+                return pickle.load(f)
+        except Exception:
+            pass
     g = tlaval.load_dot(dot)
-    with open(pk, "wb") as f:
+    tmp = Path("%s.%d.tmp" % (pk, os.getpid()))
+    with open(tmp, "wb") as f:
         pickle.dump(g, f)
+    os.replace(tmp, pk)
     return g
 
 
